@@ -42,6 +42,20 @@ def c05(tier, seed):
     return runs
 
 
+def c06(tier, seed):
+    cfgs = ["p", "r", "crf"] if tier == "quick" else ["p", "r", "rf", "cp", "crf", "np"]
+    runs = [run(c, "rel", "c06", ["prop=C06"], tag="C06") for c in cfgs]
+    runs += [run(c, "dbg", "c06", ["prop=C06", "small=1"], tag="C06small") for c in (["p"] if tier == "quick" else ["p", "r", "crf"])]
+    return runs
+
+
+def c07(tier, seed):
+    cfgs = ["r", "crf", "nr"] if tier == "quick" else ["r", "rf", "cr", "crf", "nr", "ncrf"]
+    runs = [run(c, "rel", "c06", ["prop=C07"], tag="C07") for c in cfgs]
+    runs += [run(c, "dbg", "c06", ["prop=C07", "small=1"], tag="C07small") for c in (["r"] if tier == "quick" else ["r", "crf", "nr"])]
+    return runs
+
+
 def c19(tier, seed):
     cfgs = ["d", "c", "r", "crf"] if tier == "quick" else ["d", "c", "p", "r", "rf", "crf", "nd", "nc"]
     runs = [run(c, "rel", "c01", ["lossy=1"], tag="lossy") for c in cfgs]
@@ -52,6 +66,8 @@ def c19(tier, seed):
 PLANS = {
     "C01": c01,
     "C05": c05,
+    "C06": c06,
+    "C07": c07,
     "C19": c19,
     "C04": c04,
     "C03": c03,
@@ -117,6 +133,24 @@ META = {
         "emitted bytes. non-trivial as in C01.",
         "assumptions": ["exponent character '^' (and 'p' for the C hex-float layout 16/2/10)", "oracle as in C01"],
     },
+    "C06": {
+        "rule": "formats = radix 2,4,8,16,32 with exponent base = radix, the mixed pairs 4/2 8/2 16/2 32/2 16/4 and several exponent-digit "
+        "radices (decimal, 16, 4, 2); notation variants: default breaks, breaks +-1 (exponent notation), breaks +-1200 (positional); values: "
+        "every binade x {0, all-ones, 1, all-ones-1, random} mantissas, single-bit mantissas across binades (every residue of the binary "
+        "exponent modulo bits-per-digit), all single-bit / low-pattern subnormals, radix powers +-1 ulp, integers, random bits, both signs; "
+        "f32 and f64. Judged: output re-read by the exact oracle must EQUAL the float (no tolerance), ASCII, upper-case digits valid for "
+        "the radix, sign, and lexical's own parser of the same format returns the identical bits. non-trivial = subnormals, top binade, "
+        "mantissas with > 20 set bits.",
+        "assumptions": ["exponent character '^' ('p' for 16/2/10)", "oracle as in C01"],
+    },
+    "C07": {
+        "rule": "formats = the 29 non-decimal non-power-of-two radices (+ decimal / other exponent-digit radix variants); the C06 value and "
+        "notation workload plus r^k, r^k +- 1 ulp, (r^k-1)/r^k carry chains, integers 0..4096 (thorough 65536), random integers below 2^53/2^24. "
+        "Judged: well-formed (digits < radix, <= 1 point, <= 1 exponent in the exponent radix, ASCII), accepted in full by lexical's parser "
+        "of the same format, exact distance < 2048 (f64) / 256 (f32) ulp by the exact oracle, integral floats below 2^53 / 2^24 exact. "
+        "The evidence notes carry the largest distance bucket observed. Includes no-std builds (crate-local libm floor).",
+        "assumptions": ["the 2048/256 ulp bound is the property's; the oracle measures it exactly"],
+    },
     "C19": {
         "rule": "the C01 (decimal) and C05 (all radix formats) workloads parsed with lossy(true): must accept with the full count, never NaN, "
         "correct sign, and be the correctly rounded float or one of its two neighbours (exact oracle); zero and infinity results and exact "
@@ -157,5 +191,10 @@ def replay_c05(body):
     return a
 
 
-REPLAY = {"C05": replay_c05, "C04": replay_c04, "C01": replay_input, "C02": replay_bits, "C03": replay_c03}
+def replay_c06(body):
+    c = body["case"]
+    return ["replay=" + c["bits"], "type=" + c["type"], "format=" + c["format"], "prop=" + c["property"]]
+
+
+REPLAY = {"C06": replay_c06, "C07": replay_c06, "C05": replay_c05, "C04": replay_c04, "C01": replay_input, "C02": replay_bits, "C03": replay_c03}
 POST = {}
